@@ -91,6 +91,9 @@ def cases(ctx):
             args += ['-t', '4']
         out.append({'text': txt, 'mode': mode, 'args': args})
     out.append({'text': '#program always.\np.\n#show foo(a) : p.\n', 'mode': 'file', 'args': ['--imax=2', '--istop=unknown', '0']})
+    # fixed programs for the file layout: a first file that ends in a final / dynamic / always part, a second file that starts with rules
+    for txt in ['#program always.\n{ a }.\n#program dynamic.\nb :- \'a.\n', '#program initial.\n{ a; b }.\n#program always.\nc :- a.\n', '#program dynamic.\n{ a }.\n']:
+        out.append({'text': txt, 'mode': 'two-files-base', 'args': ['--imax=3', '--istop=unknown', '0']})
     return out
 
 
